@@ -239,11 +239,17 @@ def run_cases(ck, cases, step, limit, per_shard=60):
     cases on which the harness crashed are reported here."""
     for i, c in enumerate(cases):
         c["id"] = i
-    ok, log = ck.harness_build(["server"])
-    if not ok:
-        ck.violation("harness does not build against /repo", {"log": log[-3000:]}, tag="build", no_input=True)
-        ck.finish()
-    results = ck.harness_run("server", cases)
+    import os
+    binname = os.environ.get("ZV_SERVER_BIN", "")      # mutation self-test only: a prebuilt harness binary
+    if not binname:
+        binname = "server"
+        ok, log = ck.harness_build(["server"])
+        if not ok:
+            ck.violation("harness does not build against /repo", {"log": log[-3000:]}, tag="build", no_input=True)
+            ck.finish()
+    else:
+        ck.notes.append("harness binary overridden by ZV_SERVER_BIN=%s" % binname)
+    results = ck.harness_run(binname, cases)
     ck.ran_correspondence = True
     items = []
     for c, r in zip(cases, results):
